@@ -83,6 +83,7 @@ func writeEvidence(p *PropCfg, tier string, seed int, runs []harnessRun, validat
 			"infeasible_alternatives_pruned": rep.Infeasible,
 			"complete":                       rep.Complete, "params": tc.Params, "bounds": r.cfg.Bounds, "subject": r.cfg.Subject,
 			"solver_s": rep.SolverTime.Seconds(), "wall_s": rep.Wall.Seconds(),
+			"cross_solver": rep.Cross,
 		})
 	}
 	_ = fnModel
